@@ -112,6 +112,14 @@ Definition run_ew_scale_mode (a : list Z) : list Z :=
   | _ => [-1]
   end.
 
+(* CMD fused_quantize = 15 : p mi ei mo eo -> OFM_SCALE multiplier, shift, reference q, reference shift *)
+Definition run_fused_quantize (a : list Z) : list Z :=
+  match a with
+  | p :: mi :: ei :: mo :: eo :: nil =>
+      pair_list (fused_quantize_scale p (Dy mi ei) (Dy mo eo)) ++ pair_list (tfl_requantize_params (Dy mi ei) (Dy mo eo))
+  | _ => [-1]
+  end.
+
 Definition run (cmd : Z) (a : list Z) : list Z :=
   if cmd =? 1 then run_quantise_scale a
   else if cmd =? 2 then run_reduced_quantise_scale a
@@ -127,4 +135,5 @@ Definition run (cmd : Z) (a : list Z) : list Z :=
   else if cmd =? 12 then run_fl_mul a
   else if cmd =? 13 then run_conv_scale a
   else if cmd =? 14 then run_ew_scale_mode a
+  else if cmd =? 15 then run_fused_quantize a
   else [-1].
